@@ -53,6 +53,9 @@ func eval(e *rsx.Env, rq rsx.Req) (bool, bool, string, string) {
 	if o.Panic != "" {
 		return false, true, "panic", "panic: " + o.Panic
 	}
+	if o.Cap.Reentry != "" {
+		return false, true, "context-leak", fmt.Sprintf("%s: set %s profile %+v request %s (handler %d)", o.Cap.Reentry, rsx.SetString(e.Set), e.Prof, rq, o.Cap.Handler)
+	}
 	mp := rq.MatchPath()
 	want, decided := e.RefLookup(rq.Method, rq.Host, mp)
 	if !decided {
